@@ -1,5 +1,5 @@
 SPECIFICATION GenSpec
 CONSTANTS MaxL = 7  MaxT = 3  BufSz = 2  Cap = 6
-  KeepProbe = TRUE  ProbeShort = TRUE  TeeOnErr = TRUE  PadShort = FALSE  PortFromHost = FALSE  InPlace = FALSE
+  KeepProbe = TRUE  ProbeShort = TRUE  TeeOnErr = TRUE  PadShort = FALSE  PortFromHost = FALSE  Pooled = FALSE  InPlace = FALSE
 INVARIANT PrintScn
 CHECK_DEADLOCK FALSE
